@@ -84,6 +84,12 @@ def classify(pid, unit, res):
             continue
         if any(s in desc for s in unit.panic_ok):
             continue
+        if unit.panic_ok and ("unwrap_failed" in name or "expect_failed" in name) and "placeholder message" in desc:
+            # the documented failed-flush panic of set/put (`.expect("auto_sync failed, ...")` in
+            # maybe_sync_path); Kani cannot render messages formatted at run time.  Only units that
+            # inject a failing flush carry panic_ok.
+            out.setdefault("documented_panics", []).append(name)
+            continue
         if loc.startswith("src/"):
             out["candidates"].append(dict(kind="crate-failure", desc=desc, loc=loc))
             continue
